@@ -221,6 +221,10 @@ def check_bytes(data, do_trace=True):
 
 
 def replay(case):
+    if "carriers" in case:
+        from vlib import carriers
+
+        return carriers.replay(case, "c09")
     if "parts" in case:
         from vlib.sandbox import Scratch
 
@@ -295,6 +299,8 @@ def shards(tier):
     out += [{"kind": "raw_enum", "L": 5 if tier == "quick" else 7, "part": i, "nparts": 16} for i in range(16)]
     out += [{"kind": "raw_enum", "core": True, "L": 6 if tier == "quick" else 8, "part": i, "nparts": 16}
             for i in range(16)]  # fmt: skip
+    # what is stepped is the pickle the caller pointed at, whatever object carries the bytes
+    out += [{"kind": "carriers"}]
     _ = pres
     return out
 
@@ -360,6 +366,10 @@ def raw_programs(L, part, nparts, RAW_TOKENS=RAW_TOKENS):
 
 def run_shard(spec, seed):
     res = ShardResult()
+    if spec["kind"] == "carriers":
+        from vlib import carriers
+
+        return carriers.run_shard(res, "c09")
     if spec["kind"] == "atheris":
         import os
 
